@@ -334,8 +334,9 @@ theorem inv_local {s : Sys} {i : Nat} {t' : Thread} {tr : List Ev} (hI : Inv s)
       · rename_i h0; simpa [h0] using this
       · rename_i op rest h0
         simp only [h0] at this
-        exact PcInv_local this rfl rfl rfl rfl hpre
+        exact PcInv_local this rfl rfl rfl rfl rfl hpre
   · exact hI.cellLt
+  · exact hI.cellPh
   · intro k p hk
     obtain ⟨j, op, rest, h1, h2, h3⟩ := hI.cellOwner k p hk
     have hj : j ≠ i := by
@@ -359,7 +360,7 @@ theorem inv_local {s : Sys} {i : Nat} {t' : Thread} {tr : List Ev} (hI : Inv s)
   · exact hI.placed1
   · intro e he
     rcases htr e he with h | h
-    · refine EvOk_frame (hI.tr e h) (Nat.le_refl _) ?_ (fun p v _ _ h => h)
+    · refine EvOk_frame (hI.tr e h) (Nat.le_refl _) ?_ (fun p v _ _ h => h) (fun _ _ h => h)
       intro p _ hc j
       simp only [localStep]
       split
@@ -400,7 +401,8 @@ theorem inv_install {s : Sys} {i : Nat} {op : Op} {rest : List Op} (hI : Inv s)
     (htodo : (s.threads i).todo = op :: rest) (hpc : (s.threads i).pc = .start)
     (hl : op.isLoad = false) (hc : s.cell op.key = .absent) :
     Inv (post { setCell s op.key (.infl s.nextPid) with
-                nextPid := s.nextPid + 1, placed := bump s.placed op.key }
+                nextPid := s.nextPid + 1, placed := bump s.placed op.key,
+                phOf := fun k' => if k' = op.key then some s.nextPid else s.phOf k' }
           s i rest op (.goto (.compute s.nextPid))) := by
   have hfr := hI.fresh s.nextPid (Nat.le_refl _)
   have h0 := hI.absent0 _ hc
@@ -411,7 +413,7 @@ theorem inv_install {s : Sys} {i : Nat} {op : Op} {rest : List Op} (hI : Inv s)
       simp only [post, if_true, advance, TInv, htodo, PcInv, setCell, hl, hfr]
       simp [h0.1]
     · simp only [post, hj, if_false]
-      refine TInv_of_frame (hI.thr j) (fun opj restj _ hp => PcInv_frame hp (by simp) ?_ ?_ ?_ ?_ ?_)
+      refine TInv_of_frame (hI.thr j) (fun opj restj _ hp => PcInv_frame hp (by simp) ?_ ?_ ?_ ?_ ?_ ?_)
       · intro hne
         left
         have : opj.key ≠ op.key := by intro e; rw [e] at hne; exact hne hc
@@ -427,11 +429,19 @@ theorem inv_install {s : Sys} {i : Nat} {op : Op} {rest : List Op} (hI : Inv s)
           · rfl
           · simp at hh; omega
         · exact hall j'
+      · intro hne
+        have : opj.key ≠ op.key := by intro e; rw [e] at hne; exact hne hc
+        simp [this]
   · intro k p hk
     simp only [post, setCell] at hk ⊢
     split at hk
     · cases hk; omega
     · have := hI.cellLt k p hk; omega
+  · intro k p hk
+    simp only [post, setCell] at hk ⊢
+    split at hk
+    · rename_i hkk; cases hk; simp [hkk]
+    · rename_i hkk; simp [hkk]; exact hI.cellPh k p hk
   · intro k p hk
     simp only [post, setCell] at hk ⊢
     split at hk
@@ -469,17 +479,22 @@ theorem inv_install {s : Sys} {i : Nat} {op : Op} {rest : List Op} (hI : Inv s)
   · intro k
     simp only [post, bump]
     split
-    · rename_i hkk; rw [hkk, h0.2]; omega
+    · rename_i hkk; rw [hkk, h0.2.1]; omega
     · exact hI.placed1 k
   · intro e he
     simp only [post, traceAfter, hpc, if_true, List.mem_append, List.mem_singleton] at he
     rcases he with he | rfl
-    · refine EvOk_frame (hI.tr e he) (by simp [post]) ?_ (fun p v _ _ h => h)
-      intro p hp hall j
-      simp only [post]
-      split
-      · simp only [advance]; intro h; cases h; omega
-      · exact hall j
+    · refine EvOk_frame (hI.tr e he) (by simp [post]) ?_ (fun p v _ _ h => h) ?_
+      · intro p hp hall j
+        simp only [post]
+        split
+        · simp only [advance]; intro h; cases h; omega
+        · exact hall j
+      · intro k p hk
+        simp only [post]
+        split
+        · rename_i e; rw [e, h0.2.2] at hk; cases hk
+        · exact hk
     · trivial
 
 theorem owns_compute_raw (p v q : Nat) : Pc.owns (.rawStore p v) q = Pc.owns (.compute p) q := rfl
@@ -489,7 +504,7 @@ theorem inv_compute {s : Sys} {i : Nat} {op : Op} {rest : List Op} {p : Nat} (hI
     Inv (post { setPh s p { (s.ph p) with v := some op.value } with
                 computes := if op.isStore then s.computes else bump s.computes op.key }
           s i rest op (.goto (.rawStore p op.value))) := by
-  obtain ⟨hl, hpn, hcell, hdone, hcomp⟩ := (by simpa [hpc] using TInv_cons (hI.thr i) htodo :
+  obtain ⟨hl, hpn, hcell, hdone, hcomp, hof⟩ := (by simpa [hpc] using TInv_cons (hI.thr i) htodo :
     PcInv s op (.compute p))
   have hown : (s.threads i).pc.owns p = true := by simp [hpc]
   have hne : ∀ j, j ≠ i → (s.threads j).pc.owns p = false := by
@@ -501,9 +516,9 @@ theorem inv_compute {s : Sys} {i : Nat} {op : Op} {rest : List Op} {p : Nat} (hI
   · intro j
     by_cases hj : j = i
     · subst hj
-      simp [post, advance, TInv, htodo, PcInv, setPh, hl, hpn, hcell, hdone]
+      simp [post, advance, TInv, htodo, PcInv, setPh, hl, hpn, hcell, hdone, hof]
     · simp only [post, hj, if_false]
-      refine TInv_of_frame (hI.thr j) (fun opj restj _ hp => PcInv_frame hp (Nat.le_refl _) ?_ ?_ ?_ ?_ ?_)
+      refine TInv_of_frame (hI.thr j) (fun opj restj _ hp => PcInv_frame hp (Nat.le_refl _) ?_ ?_ ?_ ?_ ?_ (fun _ => rfl))
       · intro _; left; rfl
       · intro p' hp'
         have : p' ≠ p := by intro e; subst e; rw [hne j hj] at hp'; cases hp'
@@ -529,6 +544,7 @@ theorem inv_compute {s : Sys} {i : Nat} {op : Op} {rest : List Op} {p : Nat} (hI
           simpa [advance] using this
         · exact hall j'
   · exact hI.cellLt
+  · exact hI.cellPh
   · intro k p' hk
     obtain ⟨j, opj, restj, h1, h2, h3⟩ := hI.cellOwner k p' hk
     refine ⟨j, opj, restj, ?_, h2, ?_⟩
@@ -580,7 +596,7 @@ theorem inv_compute {s : Sys} {i : Nat} {op : Op} {rest : List Op} {p : Nat} (hI
   · intro e he
     simp only [post, traceAfter, hpc] at he
     simp at he
-    refine EvOk_frame (hI.tr e he) (Nat.le_refl _) ?_ ?_
+    refine EvOk_frame (hI.tr e he) (Nat.le_refl _) ?_ ?_ (fun _ _ h => h)
     · intro p' _ hall j
       simp only [post]; split
       · simp [advance]
@@ -592,7 +608,7 @@ theorem inv_compute {s : Sys} {i : Nat} {op : Op} {rest : List Op} {p : Nat} (hI
 theorem inv_rawStore {s : Sys} {i : Nat} {op : Op} {rest : List Op} {p v : Nat} (hI : Inv s)
     (htodo : (s.threads i).todo = op :: rest) (hpc : (s.threads i).pc = .rawStore p v) :
     Inv (post (setCell s op.key (.val v)) s i rest op (.goto (.signal p v))) := by
-  obtain ⟨hl, hpn, hcell, hdone, hv, hval⟩ := (by simpa [hpc] using TInv_cons (hI.thr i) htodo :
+  obtain ⟨hl, hpn, hcell, hdone, hv, hval, hof⟩ := (by simpa [hpc] using TInv_cons (hI.thr i) htodo :
     PcInv s op (.rawStore p v))
   have hown : (s.threads i).pc.owns p = true := by simp [hpc]
   have hne : ∀ j, j ≠ i → (s.threads j).pc.owns p = false := by
@@ -613,7 +629,7 @@ theorem inv_rawStore {s : Sys} {i : Nat} {op : Op} {rest : List Op} {p v : Nat} 
   · intro j
     by_cases hj : j = i
     · subst hj
-      simp [post, advance, TInv, htodo, PcInv, setCell, hl, hpn, hdone, hv]
+      simp [post, advance, TInv, htodo, PcInv, setCell, hl, hpn, hdone, hv, hof]
     · simp only [post, hj, if_false]
       refine TInv_of_frame (hI.thr j) (fun opj restj _ hp => ?_)
       by_cases hk : opj.key = op.key
@@ -632,8 +648,8 @@ theorem inv_rawStore {s : Sys} {i : Nat} {op : Op} {rest : List Op} {p v : Nat} 
           rw [hpcj] at hp; have h3 := hp.2; rw [hk, hcell] at h3; simp at h3
         | wait q =>
           rw [hpcj] at hp
-          obtain ⟨h1, h2⟩ := hp
-          refine ⟨h1, Or.inr ?_⟩
+          obtain ⟨h1, h0, h2⟩ := hp
+          refine ⟨h1, h0, Or.inr ?_⟩
           rcases h2 with h2 | h2
           · rw [hk, hcell] at h2; cases h2
             refine ⟨by simp [setCell, hk], ⟨v, hv⟩, fun j' => ?_⟩
@@ -641,7 +657,7 @@ theorem inv_rawStore {s : Sys} {i : Nat} {op : Op} {rest : List Op} {p v : Nat} 
             simpa [post] using this
           · rw [hk, hcell] at h2; simp at h2
       · refine PcInv_frame hp (Nat.le_refl _) ?_ (fun _ _ => rfl) (fun q v' _ h => ⟨v', h⟩)
-          (fun _ _ _ => rfl) ?_
+          (fun _ _ _ => rfl) ?_ (fun _ => rfl)
         · intro _; left; simp [setCell, hk]
         · intro q _ _ hall j'
           simp only []
@@ -653,6 +669,11 @@ theorem inv_rawStore {s : Sys} {i : Nat} {op : Op} {rest : List Op} {p v : Nat} 
     split at hk
     · cases hk
     · exact hI.cellLt k p' hk
+  · intro k p' hk
+    simp only [post, setCell] at hk
+    split at hk
+    · cases hk
+    · exact hI.cellPh k p' hk
   · intro k p' hk
     simp only [post, setCell] at hk
     split at hk
@@ -689,7 +710,7 @@ theorem inv_rawStore {s : Sys} {i : Nat} {op : Op} {rest : List Op} {p v : Nat} 
   · intro e he
     simp only [post, traceAfter, hpc] at he
     simp at he
-    refine EvOk_frame (hI.tr e he) (Nat.le_refl _) ?_ (fun _ _ _ _ h => h)
+    refine EvOk_frame (hI.tr e he) (Nat.le_refl _) ?_ (fun _ _ _ _ h => h) (fun _ _ h => h)
     intro p' _ hall j
     simp only [post]; split
     · simp [advance]
@@ -707,7 +728,7 @@ theorem inv_signal {s : Sys} {i : Nat} {op : Op} {rest : List Op} {p v : Nat} (h
     (htodo : (s.threads i).todo = op :: rest) (hpc : (s.threads i).pc = .signal p v) :
     Inv (post (setPh s p { (s.ph p) with done := true }) s i rest op
       (.fin (if op.isStore then .unit else .val v) (.own p))) := by
-  obtain ⟨hl, hpn, hcell, hdone, hv⟩ := (by simpa [hpc] using TInv_cons (hI.thr i) htodo :
+  obtain ⟨hl, hpn, hcell, hdone, hv, hof⟩ := (by simpa [hpc] using TInv_cons (hI.thr i) htodo :
     PcInv s op (.signal p v))
   have hown : (s.threads i).pc.owns p = true := by simp [hpc]
   have hne : ∀ j, j ≠ i → (s.threads j).pc.owns p = false := by
@@ -730,7 +751,7 @@ theorem inv_signal {s : Sys} {i : Nat} {op : Op} {rest : List Op} {p v : Nat} (h
       exact TInv_fresh _ _ _
     · simp only [post, hj, if_false]
       refine TInv_of_frame (hI.thr j) (fun opj restj _ hp => PcInv_frame hp (Nat.le_refl _)
-        (fun _ => Or.inl rfl) ?_ ?_ (fun _ _ _ => rfl) ?_)
+        (fun _ => Or.inl rfl) ?_ ?_ (fun _ _ _ => rfl) ?_ (fun _ => rfl))
       · intro p' hp'
         have : p' ≠ p := by intro e; subst e; rw [hne j hj] at hp'; cases hp'
         simp [setPh, this]
@@ -745,6 +766,7 @@ theorem inv_signal {s : Sys} {i : Nat} {op : Op} {rest : List Op} {p v : Nat} (h
         · simp [advance]
         · exact hall j'
   · exact hI.cellLt
+  · exact hI.cellPh
   · intro k p' hk
     obtain ⟨j, opj, restj, h1, h2, h3⟩ := hI.cellOwner k p' hk
     have hj : j ≠ i := by intro e; subst e; rw [hpc] at h3; simp at h3
@@ -774,12 +796,13 @@ theorem inv_signal {s : Sys} {i : Nat} {op : Op} {rest : List Op} {p v : Nat} (h
     simp at he
     rcases he with he | rfl
     · refine EvOk_frame (hI.tr e he) (Nat.le_refl _) (fun p' _ hall j => hcomp p' j (hall j)) ?_
+        (fun _ _ h => h)
       intro p' v' _ _ h
       simp only [post, setPh]
       split
       · rename_i e; subst e; exact h
       · exact h
-    · refine ⟨retShape_own hl, hpn, ?_, v, by simp [post, setPh, hv], ?_⟩
+    · refine ⟨retShape_own hl, hpn, hof, ?_, v, by simp [post, setPh, hv], ?_⟩
       · intro j
         apply hcomp
         intro h
@@ -808,7 +831,7 @@ theorem inv_finalStore {s : Sys} {i : Nat} {op : Op} {rest : List Op} (hI : Inv 
       exact TInv_fresh _ _ _
     · simp only [post, hj, if_false]
       refine TInv_of_frame (hI.thr j) (fun opj restj _ hp => PcInv_frame hp (Nat.le_refl _)
-        ?_ (fun _ _ => rfl) (fun q v' _ h => ⟨v', h⟩) (fun _ _ _ => rfl) ?_)
+        ?_ (fun _ _ => rfl) (fun q v' _ h => ⟨v', h⟩) (fun _ _ _ => rfl) ?_ (fun _ => rfl))
       · intro _
         by_cases hk : opj.key = op.key
         · right; rw [hk]; exact ⟨hcell, by simp [setCell]⟩
@@ -823,6 +846,11 @@ theorem inv_finalStore {s : Sys} {i : Nat} {op : Op} {rest : List Op} (hI : Inv 
     split at hk
     · cases hk
     · exact hI.cellLt k p' hk
+  · intro k p' hk
+    simp only [post, setCell] at hk
+    split at hk
+    · cases hk
+    · exact hI.cellPh k p' hk
   · intro k p' hk
     simp only [post, setCell] at hk
     split at hk
@@ -854,7 +882,7 @@ theorem inv_finalStore {s : Sys} {i : Nat} {op : Op} {rest : List Op} (hI : Inv 
     simp at he
     rcases he with he | rfl
     · exact EvOk_frame (hI.tr e he) (Nat.le_refl _) (fun p' _ hall j => hcomp p' j (hall j))
-        (fun _ _ _ _ h => h)
+        (fun _ _ _ _ h => h) (fun _ _ h => h)
     · refine ⟨?_, trivial⟩
       cases op <;> simp [retShape, Op.isStore] at *
 
@@ -872,13 +900,13 @@ theorem preStore_notDone {s : Sys} (hI : Inv s) {j q : Nat}
 `v` written, and the owner past its raw store -/
 theorem wait_done {s : Sys} (hI : Inv s) {op : Op} {q : Nat} (h : PcInv s op (.wait q))
     (hd : (s.ph q).done = true) :
-    q < s.nextPid ∧ (s.cell op.key).isVal = true ∧ (∃ v, (s.ph q).v = some v) ∧
-      ∀ j, (s.threads j).pc.preStore q = false := by
-  obtain ⟨h1, h2⟩ := h
+    q < s.nextPid ∧ s.phOf op.key = some q ∧ (s.cell op.key).isVal = true ∧
+      (∃ v, (s.ph q).v = some v) ∧ ∀ j, (s.threads j).pc.preStore q = false := by
+  obtain ⟨h1, h0, h2⟩ := h
   rcases h2 with h2 | h2
   · obtain ⟨j, _, _, _, _, h3⟩ := hI.cellOwner _ _ h2
     rw [preStore_notDone hI h3] at hd; cases hd
-  · exact ⟨h1, h2⟩
+  · exact ⟨h1, h0, h2⟩
 
 theorem post_local (s : Sys) (i : Nat) (rest : List Op) (op : Op) (nx : Next) :
     post s s i rest op nx
@@ -915,7 +943,7 @@ theorem inv_step {s s' : Sys} {i : Nat} (hI : Inv s) (h : step s i = some s') : 
     rw [post_local]
     refine inv_local hI (by simp [hpc]) (by simp [advance]) ?_ ?_
     · simp only [advance, TInv, htodo]
-      exact ⟨hI.cellLt _ _ hc, Or.inl hc⟩
+      exact ⟨hI.cellLt _ _ hc, hI.cellPh _ _ hc, Or.inl hc⟩
     · intro e he
       simp [traceAfter, hpc] at he
       rcases he with he | rfl
@@ -936,7 +964,7 @@ theorem inv_step {s s' : Sys} {i : Nat} (hI : Inv s) (h : step s i = some s') : 
   | rawStore p v => exact inv_rawStore hI htodo hpc
   | signal p v => exact inv_signal hI htodo hpc
   | wakeStore q hd hst =>
-    obtain ⟨_, hval, _, _⟩ := wait_done hI hti hd
+    obtain ⟨_, _, hval, _, _⟩ := wait_done hI hti hd
     rw [post_local]
     refine inv_local hI (by simp [hpc]) (by simp [advance]) ?_ ?_
     · simp only [advance, TInv, htodo]
@@ -945,14 +973,14 @@ theorem inv_step {s s' : Sys} {i : Nat} (hI : Inv s) (h : step s i = some s') : 
       simp [traceAfter, hpc] at he
       exact Or.inl he
   | wakeRet q hd hst =>
-    obtain ⟨hq, hval, ⟨v, hv⟩, hpre⟩ := wait_done hI hti hd
+    obtain ⟨hq, hof, hval, ⟨v, hv⟩, hpre⟩ := wait_done hI hti hd
     rw [post_local]
     refine inv_local hI (by simp [hpc]) (by simp [advance]) (TInv_fresh _ _ _) ?_
     intro e he
     simp [traceAfter, hpc] at he
     rcases he with he | rfl
     · exact Or.inl he
-    · refine Or.inr ⟨?_, hq, ?_, v, hv, ?_⟩
+    · refine Or.inr ⟨?_, hq, hof, ?_, v, hv, ?_⟩
       · simp only [retOfPh, hv]
         cases op <;> simp [retShape, Op.isStore] at *
       · intro j
@@ -976,5 +1004,128 @@ theorem inv_run {s : Sys} (hI : Inv s) (sched : List Nat) : Inv (run s sched) :=
 theorem inv_reachable {s : Sys} (h : Reachable s) : Inv s := by
   obtain ⟨progs, sched, rfl⟩ := h
   exact inv_run (inv_init progs) sched
+
+/-! ## Consequences used by the property theorems -/
+
+def Via.pid? : Via → Option Nat
+  | .direct => none
+  | .own p => some p
+  | .waited p => some p
+
+/-- every result obtained through a placeholder (as its owner or as a waiter) is the value
+written into that placeholder, and the placeholder is the one installed for the key -/
+theorem via_value {s : Sys} (hI : Inv s) {t : Nat} {op : Op} {r : Ret} {via : Via} {p : Nat}
+    (he : Ev.ret t op r via ∈ s.trace) (hp : via.pid? = some p) :
+    s.phOf op.key = some p ∧ ∃ v, (s.ph p).v = some v ∧ (op.isStore = false → r = .val v) := by
+  have h := (hI.tr _ he).2
+  cases via with
+  | direct => cases hp
+  | own q => cases hp; exact ⟨h.2.1, h.2.2.2⟩
+  | waited q => cases hp; exact ⟨h.2.1, h.2.2.2⟩
+
+theorem stepOp_none {s : Sys} {op : Op} {pc : Pc} (h : stepOp s op pc = none) :
+    (∃ p, pc = .compute p ∧ op.isLoad = true) ∨ (∃ q, pc = .wait q ∧ (s.ph q).done = false) ∨
+      (pc = .finalStore ∧ op.isStore = false) := by
+  cases pc with
+  | start =>
+    cases op with
+    | load k => cases hc : s.cell k <;> simp [stepOp, Op.key, hc] at h
+    | los k fv => cases hc : s.cell k <;> simp [stepOp, Op.key, hc, Op.isStore] at h
+    | store k v => cases hc : s.cell k <;> simp [stepOp, Op.key, hc, Op.isStore] at h
+  | compute p => cases op <;> simp [stepOp, Op.isLoad] at h ⊢
+  | rawStore p v => simp [stepOp] at h
+  | signal p v => simp [stepOp] at h
+  | wait q =>
+    cases hd : (s.ph q).done
+    · exact Or.inr (Or.inl ⟨q, rfl, hd⟩)
+    · simp only [stepOp, hd, if_true] at h; split at h <;> simp at h
+  | finalStore => cases op <;> simp [stepOp, Op.isStore] at h ⊢
+
+theorem step_none_stepOp {s : Sys} {i : Nat} {op : Op} {rest : List Op}
+    (htodo : (s.threads i).todo = op :: rest) (h : step s i = none) :
+    stepOp s op (s.threads i).pc = none := by
+  unfold step at h
+  rw [htodo] at h
+  simp only at h
+  cases hso : stepOp s op (s.threads i).pc with
+  | none => rfl
+  | some x => rw [hso] at h; simp at h
+
+theorem step_none_wait {s : Sys} (hI : Inv s) {i : Nat} {op : Op} {rest : List Op}
+    (htodo : (s.threads i).todo = op :: rest) (h : step s i = none) :
+    ∃ q, (s.threads i).pc = .wait q ∧ (s.ph q).done = false := by
+  have hp := TInv_cons (hI.thr i) htodo
+  rcases stepOp_none (step_none_stepOp htodo h) with ⟨p, hpc, hl⟩ | hw | ⟨hpc, hst⟩
+  · rw [hpc] at hp; rw [hp.1] at hl; cases hl
+  · exact hw
+  · rw [hpc] at hp; rw [hp.1] at hst; cases hst
+
+theorem owner_enabled {s : Sys} (hI : Inv s) {j q : Nat}
+    (h : (s.threads j).pc.owns q = true) : (step s j).isSome = true := by
+  cases hs : step s j with
+  | some _ => rfl
+  | none =>
+    have ht := hI.thr j
+    unfold TInv at ht
+    split at ht
+    · rw [ht] at h; simp at h
+    · rename_i op rest htodo
+      obtain ⟨q', hq', _⟩ := step_none_wait hI htodo hs
+      rw [hq'] at h; simp at h
+
+theorem step_cell_val {s s' : Sys} {i : Nat} (h : step s i = some s') (k : Nat)
+    (hv : (s.cell k).isVal = true) : (s'.cell k).isVal = true := by
+  obtain ⟨op, rest, s1, nx, htodo, hs, rfl⟩ := step_eq h
+  generalize (s.threads i).pc = pc at hs
+  cases hs <;> try exact hv
+  · rename_i hl hc
+    simp only [setCell]
+    split
+    · rename_i e; rw [e, hc] at hv; simp at hv
+    · exact hv
+  · simp only [setCell]; split <;> simp [hv]
+  · simp only [setCell]; split <;> simp [hv]
+
+theorem run_cell_val {s : Sys} (sched : List Nat) (k : Nat)
+    (hv : (s.cell k).isVal = true) : ((run s sched).cell k).isVal = true := by
+  induction sched generalizing s with
+  | nil => exact hv
+  | cons i is ih =>
+    simp only [run]
+    split
+    · rename_i s' h; exact ih (step_cell_val h k hv)
+    · exact ih hv
+
+/-- a present value is only ever replaced by a `Store` operation's own final store -/
+theorem overwrite_is_store {s s' : Sys} (hI : Inv s) {i k w : Nat} (h : step s i = some s')
+    (hw : s.cell k = .val w) (hne : s'.cell k ≠ .val w) :
+    ∃ v rest, (s.threads i).todo = .store k v :: rest ∧ (s.threads i).pc = .finalStore ∧
+      s'.cell k = .val v := by
+  obtain ⟨op, rest, s1, nx, htodo, hs, rfl⟩ := step_eq h
+  have hti := TInv_cons (hI.thr i) htodo
+  generalize hpc : (s.threads i).pc = pc at hs hti
+  cases hs <;> try exact (hne hw).elim
+  · rename_i hl hc
+    exfalso; apply hne
+    simp only [setCell]
+    split
+    · rename_i e; rw [e, hc] at hw; cases hw
+    · exact hw
+  · rename_i p v
+    exfalso; apply hne
+    have hc := hti.2.2.1
+    simp only [setCell]
+    split
+    · rename_i e; rw [e, hc] at hw; cases hw
+    · exact hw
+  · rename_i hst
+    cases op with
+    | store k' v =>
+      by_cases e : k = k'
+      · subst e
+        exact ⟨v, rest, htodo, rfl, by simp [setCell, Op.key, Op.value]⟩
+      · exfalso; apply hne; simp [setCell, Op.key, e]; exact hw
+    | los _ _ => simp [Op.isStore] at hst
+    | load _ => simp [Op.isStore] at hst
 
 end Restli.LazyMap
